@@ -99,6 +99,49 @@ let register () =
         with Table_miss w -> "ERR table miss " ^ w)
     | _ -> "ERR args");
 
+  (* ---- `desync chunk-server` from its options (Model/ServerCLI.v):
+     c15.clichunk <auth flag> <auth env> <writable> <skipverifywrite> <skipverifyread> <uncompressed>
+                  <method> <path> <authhdr> <body> <files> <zdecomp tab> <zcomp tab>
+     -> <action> <status> <body> <files'> ---- *)
+  Drv.register "c15.clichunk" (fun a -> match a with
+    | [af; ae; wr; svw; svr; unc; m; p; ah; body; files; ztab; ctab] ->
+        let zd = partial_of "zdecomp" (parse_tab ztab) and zc = total_of "zcomp" (parse_tab ctab) in
+        let o = { ServerCLI.o_auth_flag = bytes_of_hex af; ServerCLI.o_auth_env = bytes_of_hex ae; ServerCLI.o_writable = bool_of wr;
+                  ServerCLI.o_skip_verify_write = bool_of svw; ServerCLI.o_skip_verify_read = bool_of svr; ServerCLI.o_uncompressed = bool_of unc } in
+        let fl = Stdlib.List.map (fun kv -> match Stdlib.String.split_on_char ':' kv with
+            | [k; v] -> (Sha256.id_of_hex k, bytes_of_hex v) | _ -> failwith "files") (split_on ',' files) in
+        let r = { r_method = meth_of m; r_path = bytes_of_hex p; r_auth = bytes_of_hex ah; r_body = bytes_of_hex body } in
+        (try
+          let act = chunk_serve Sha256.h_model zd (ServerCLI.cli_chunk_cfg o) r in
+          let (rs, s') = ServerCLI.cli_chunk_handle Sha256.h_model zc zd o fl r in
+          let out = Stdlib.List.sort compare (Stdlib.List.map (fun (i, b) -> id_hex i ^ ":" ^ hex_of_bytes b) s'.ls_files) in
+          Printf.sprintf "%s %s %s %s" (action_str act) (string_of_n rs.status) (hex_of_bytes rs.body)
+            (if out = [] then "-" else Stdlib.String.concat "," out)
+        with Table_miss w -> "ERR table miss " ^ w)
+    | _ -> "ERR args");
+
+  (* c15.cliindex <auth flag> <auth env> <writable> <method> <path> <authhdr> <body> <dir> <codec tab> *)
+  Drv.register "c15.cliindex" (fun a -> match a with
+    | [af; ae; wr; m; p; ah; body; dir; itab] ->
+        let tab = parse_tab itab in
+        let dec = partial_of "idx_decode" tab and enc = (fun (x : BinNums.coq_N list) -> x) in
+        let o = { ServerCLI.o_auth_flag = bytes_of_hex af; ServerCLI.o_auth_env = bytes_of_hex ae; ServerCLI.o_writable = bool_of wr;
+                  ServerCLI.o_skip_verify_write = false; ServerCLI.o_skip_verify_read = false; ServerCLI.o_uncompressed = false } in
+        let d = Stdlib.List.map (fun e -> match Stdlib.String.split_on_char ':' e with
+            | [n; "D"] -> (bytes_of_hex n, DDir)
+            | [n; "F"; v] -> (bytes_of_hex n, DFile (bytes_of_hex v))
+            | _ -> failwith "dir") (split_on ',' dir) in
+        let r = { r_method = meth_of m; r_path = bytes_of_hex p; r_auth = bytes_of_hex ah; r_body = bytes_of_hex body } in
+        (try
+          let act = index_serve dec (ServerCLI.cli_index_cfg o) r in
+          let (rs, d') = ServerCLI.cli_index_handle dec enc o d r in
+          let out = Stdlib.List.sort compare (Stdlib.List.map (fun (n, e) -> match e with
+              | DDir -> hex_of_bytes n ^ ":D" | DFile v -> hex_of_bytes n ^ ":F:" ^ hex_of_bytes v) d') in
+          Printf.sprintf "%s %s %s %s" (action_str act) (string_of_n rs.status) (hex_of_bytes rs.body)
+            (if out = [] then "-" else Stdlib.String.concat "," out)
+        with Table_miss w -> "ERR table miss " ^ w)
+    | _ -> "ERR args");
+
   (* ---- index handler over a LocalIndexStore:
      c15.index <auth> <writable> <storewritable> <method> <path> <authhdr> <body> <dir name:F:content|name:D,...> <codec tab body:recoded|body:!>
      -> <action> <status> <body> <dir'> ---- *)
